@@ -91,11 +91,29 @@ def LEXER(**over):
 
 
 # ---- ghost abstraction of an expression token list: tokens nested in their markup, in order ------------
+def _tok_fields(ex, tok):
+    return ex.to_int_term(ex.getattr(tok, "start")), ex.to_int_term(ex.getattr(tok, "stop"))
+
+
+RPAREN = None
+
+
+def _rparen_fact(ex, tok, st, sp):
+    """Element invariant of expression lists: a token of type RPAREN is the single character `)`."""
+    from pyvc.values import EnumVal, SAny
+    ty = ex.getattr(tok, "type_")
+    rp = ex.lift(EnumVal("TokenType", "RPAREN"))[0]
+    if isinstance(ty, EnumVal):
+        return z3.BoolVal(True) if ty.member != "RPAREN" else (sp == st + 1)
+    if isinstance(ty, SAny):
+        return z3.Implies(ty.t == rp, sp == st + 1)
+    return z3.BoolVal(True)
+
+
 def _nest_append(ex, lst, args, kw):
     (tok,) = args
-    st = ex.to_int_term(ex.getattr(tok, "start"))
-    sp = ex.to_int_term(ex.getattr(tok, "stop"))
-    cname = tok.cls.name
+    st, sp = _tok_fields(ex, tok)
+    cname = tok.cls.name if isinstance(tok, HObj) else "PathToken"   # opaque tokens come off the path stack
     lo = lst.state["lo"]
     lx = ex.shared.get("lexer_self")
     if lx is not None:
@@ -104,9 +122,18 @@ def _nest_append(ex, lst, args, kw):
     ex.oblige(f"nest.{cname}.ordered", st >= prev, f"{cname}.start >= stop of the previous expression token")
     ex.oblige(f"nest.{cname}.after-opener", st > lo, f"{cname}.start lies after the markup opener")
     ex.oblige(f"nest.{cname}.span", z3.And(st <= sp, sp <= lst.state["n"]), f"{cname}.start <= {cname}.stop <= len(source)")
+    if cname == "Token":
+        ex.oblige("nest.Token.rparen-width", _rparen_fact(ex, tok, st, sp), "a token of type RPAREN spans exactly one character")
     lst.state["last_stop"] = sp
     lst.state["items"] = lst.state["items"] + [tok]
     lst.state["count"] = lst.state["count"] + 1
+    try:
+        lst.state["last_type"] = ex.lift(ex.getattr(tok, "type_"))[0]
+    except Exception as e:  # noqa: BLE001
+        import os
+        if os.environ.get("PYVC_DEBUG"):
+            import traceback; traceback.print_exc()
+        lst.state["last_type"] = ex.fresh("last_type", "any").t
     return None
 
 
@@ -115,11 +142,32 @@ def _nest_len(ex, lst, args, kw):
 
 
 def _nest_pop(ex, lst, args, kw):
-    if not lst.state["items"]:
-        # tokens already there at function entry are opaque: popping them yields an opaque token
-        ex.raise_builtin("IndexError", "pop from expression list")
-    tok = lst.state["items"][-1]
-    lst.state["items"] = lst.state["items"][:-1]
+    """expression.pop(): IndexError when empty; a token appended in this call comes back as it is; a token
+    that was already there is opaque but satisfies the element invariants the appends establish
+    (ordered, after the opener, start <= stop <= len(source), RPAREN width)."""
+    cnt = lst.state["count"]
+    ex.require(cnt > 0, "IndexError", "pop from empty list")
+    lo = lst.state["lo"]
+    lx = ex.shared.get("lexer_self")
+    if lx is not None:
+        lo = ex.to_int_term(ex.getattr(lx, "markup_start"))
+    if lst.state["items"]:
+        tok = lst.state["items"][-1]
+        lst.state["items"] = lst.state["items"][:-1]
+        st, sp = _tok_fields(ex, tok)
+    else:
+        tok = ex.fresh("popped_token", "any")
+        st, sp = _tok_fields(ex, tok)
+        ex.assume(z3.And(sp <= lst.state["last_stop"], st <= sp, st > lo, _rparen_fact(ex, tok, st, sp)))
+        ex.assume(ex.getattr(tok, "type_").t == lst.state["last_type"])
+    if lst.state["items"]:
+        lst.state["last_stop"] = _tok_fields(ex, lst.state["items"][-1])[1]
+    else:
+        nl = ex.fresh(f"{lst.name}.last_stop", "int").t
+        ex.assume(z3.And(nl >= 0, nl <= st))
+        lst.state["last_stop"] = nl
+    lst.state["last_type"] = ex.fresh("last_type", "any").t
+    lst.state["count"] = cnt - 1
     return tok
 
 
@@ -129,8 +177,20 @@ def NEST(ex, name):
     lo = ex.sym("self.markup_start", "int")
     cnt = ex.sym(f"{name}.count", "int")
     ex.assume(cnt.t >= 0)
-    return HSpecList(name, {"append": _nest_append, "pop": _nest_pop, "__len__": _nest_len},
-                     {"last_stop": ls.t, "lo": lo.t, "n": z3.Length(src.t), "items": [], "count": cnt.t})
+    lt = ex.sym(f"{name}.last_type", "any")
+    return HSpecList(name, {"append": _nest_append, "pop": _nest_pop, "__len__": _nest_len, "havoc": _nest_havoc},
+                     {"last_stop": ls.t, "lo": lo.t, "n": z3.Length(src.t), "items": [], "count": cnt.t, "last_type": lt.t})
+
+
+def _nest_havoc(ex, lst):
+    lst.state["last_type"] = ex.fresh("last_type", "any").t
+    ex.assume(lst.state["count"] >= 0)
+
+
+@spec("nest_last_is", None)
+def _nest_last_is(ex, lst, enumval):
+    """The last token of the list has the given token type."""
+    return SBool(lst.state["last_type"] == ex.lift(enumval)[0])
 
 
 @spec("nest_stop", None)
@@ -282,6 +342,9 @@ contract(
 )
 
 
+# fields of opaque tokens (tokens that are already in a list when a function starts)
+TOK_FIELDS = {"start": "int", "stop": "int", "index": "=start", "type_": "any", "name": "str"}
+
 # ---- accept_token: the contract the state functions rely on -------------------------------------------
 ACCEPT_PRE = ["self.start == self.pos", "0 <= self.pos and self.pos <= len(self.source)",
               "0 <= self.markup_start and self.markup_start < self.start", "nest_stop(expression) <= self.start"]
@@ -300,6 +363,55 @@ contract(
     raises={"LiquidSyntaxError": None},
     modifies=["self.pos", "self.start", "self.in_range", "self.path_stack", "expression"],
     returns=Bool,
+    obj_fields=TOK_FIELDS,
 )
 
 
+
+
+# ---- expression-level scanners called by accept_token ------------------------------------------------------
+SCAN_PRE = ["self.start <= self.pos", "0 <= self.start and self.pos <= len(self.source)", "0 <= self.markup_start and self.markup_start < self.start"]
+SCAN_MOD = ["self.pos", "self.start", "self.in_range", "self.path_stack", "expression"]
+
+contract(
+    "liquid2.lexer:Lexer.accept_template_string",
+    props=["C17", "C02", "C20"],
+    params={"self": Shared("lexer_self", LEXER(wc=WC1, **LISTS)), "quote": Union(Const("'"), Const('"')), "expression": Opaque(NEST, "nested")},
+    pre=ACCEPT_PRE,
+    post=ACCEPT_FRAME + ["self.start == self.pos", "self.pos > old(self.pos)", "self.pos <= len(self.source)", "nest_stop(expression) <= self.pos"],
+    post_exc=ERR_INSIDE,
+    raises={"LiquidSyntaxError": None},
+    modifies=SCAN_MOD,
+)
+
+contract(
+    "liquid2.lexer:Lexer.accept_path",
+    props=["C17", "C02"],
+    params={"self": Shared("lexer_self", LEXER(wc=WC1, **LISTS)), "carry": Union(TrueT, FalseT)},
+    pre=SCAN_PRE + ["implies(not carry, self.start == self.pos and self.pos < len(self.source) and self.source[self.pos] == '[')"],
+    post=ACCEPT_FRAME + [
+        "self.start == self.pos", "self.pos >= old(self.pos)", "self.pos <= len(self.source)",
+        "implies(not carry, self.pos > old(self.pos))",   # a bracketed path consumes at least its opening bracket
+        # the finished path is on top of the path stack, its span lies between the old start and the cursor
+        "len(self.path_stack) == old(len(self.path_stack)) + 1",
+        "self.path_stack[-1].start == old(self.start)",
+        "self.path_stack[-1].start <= self.path_stack[-1].stop and self.path_stack[-1].stop <= self.pos",
+    ],
+    post_exc=ERR_INSIDE,
+    raises={"LiquidSyntaxError": None},
+    modifies=["self.pos", "self.start", "self.path_stack"],
+)
+
+contract(
+    "liquid2.lexer:Lexer.accept_range",
+    props=["C17", "C02"],
+    params={"self": Shared("lexer_self", LEXER(wc=WC1, **LISTS)), "expression": Opaque(NEST, "nested")},
+    # called by accept_token right after it appended the closing parenthesis
+    pre=["self.start == self.pos", "0 <= self.pos and self.pos <= len(self.source)", "nest_stop(expression) <= self.pos",
+         "len(expression) >= 1", "nest_last_is(expression, TokenType.RPAREN)"],
+    post=ACCEPT_FRAME + ["self.start == old(self.start) and self.pos == old(self.pos)", "nest_stop(expression) <= self.pos"],
+    post_exc=ERR_INSIDE,
+    raises={"LiquidSyntaxError": None},
+    modifies=["expression"],
+    obj_fields=TOK_FIELDS,
+)
